@@ -662,6 +662,50 @@ def ref_after_codesep(script: bytes, k: int):
     return None
 
 
+def ref_bip341(t, i, outs, ht, annex: bytes, ext: bytes):
+    """BIP341 "Common signature message" + BIP342's extension, transcribed from the BIP text with hashlib alone;
+    None where the BIP says the signature validation fails (undefined hash_type, SIGHASH_SINGLE without a
+    corresponding output).  `i` names an input, one spent output per input."""
+    if ht not in (0, 1, 2, 3, 0x81, 0x82, 0x83):
+        return None
+    le = lambda x, n: (x % (1 << (8 * n))).to_bytes(n, "little")  # noqa: E731
+    ser_out = lambda o: le(o[0], 8) + _ref_compact(len(o[1])) + o[1]  # noqa: E731
+    acp, base = ht & 0x80, ht & 3
+    m = bytes([ht]) + le(t["version"], 4) + le(t["lock_time"], 4)
+    if acp != 0x80:
+        m += _sha256(b"".join(v[0] + le(v[1], 4) for v in t["vin"]))
+        m += _sha256(b"".join(le(o[0], 8) for o in outs))
+        m += _sha256(b"".join(_ref_compact(len(o[1])) + o[1] for o in outs))
+        m += _sha256(b"".join(le(v[3], 4) for v in t["vin"]))
+    if base not in (2, 3):
+        m += _sha256(b"".join(ser_out(o) for o in t["vout"]))
+    m += bytes([(2 if ext else 0) + (1 if annex else 0)])
+    if acp == 0x80:
+        v = t["vin"][i]
+        m += v[0] + le(v[1], 4) + le(outs[i][0], 8) + _ref_compact(len(outs[i][1])) + outs[i][1] + le(v[3], 4)
+    else:
+        m += le(i, 4)
+    if annex:
+        m += _sha256(_ref_compact(len(annex)) + annex)
+    if base == 3:
+        if i >= len(t["vout"]):
+            return None
+        m += _sha256(ser_out(t["vout"][i]))
+    return _ref_tagged(b"TapSighash", b"\x00" + m + ext)
+
+
+def _o_bip341_reference(w):
+    """sig_hash.taproot against the harness's own transcription of BIP341/342 (script path and annex included:
+    no published vector covers them in this sandbox)."""
+    t = un_tx(w["tx"])
+    outs = un_outs(w["outs"])
+    annex, ext = unhx(w["annex"]), unhx(w["ext"])
+    got = _call(sig_hash.taproot, mk_tx(t), w["i"], [mk_out(o) for o in outs], w["ht"], int(bool(ext)), annex, ext)
+    want = ref_bip341(t, w["i"], outs, w["ht"], annex, ext)
+    ok = got == ("err", "value") if want is None else got == ("ok", want)
+    return ok, f"taproot ht={hex(w['ht'])} annex={w['annex']} ext={w['ext'][:16]}: {got}, BIP341 reference {want.hex() if want else 'refuse'}"
+
+
 def _is(spk: bytes, kind: str) -> bool:
     if kind == "p2sh":
         return len(spk) == 23 and spk[:2] == b"\xa9\x14" and spk[22:] == b"\x87"
@@ -772,6 +816,7 @@ ORACLES = {
     "from_tx.dispatch": _o_from_tx_dispatch,
     "annex_and_ext.bip341": _o_annex_ext,
     "redeem_script.bip16": _o_redeem,
+    "bip341.reference": _o_bip341_reference,
 }
 
 
@@ -792,11 +837,15 @@ def s_core_vectors(ctx):
     rows = json.load(open(path))[1:]
     if ctx.tier != "thorough":
         rows = rows[:: max(1, len(rows) // 120)]
-    lines = []
+    lines, published = [], []
     for raw, script, i, ht, exp in rows:
         ctx.check("core.sighash.json", {"raw": raw, "script": script, "i": i, "ht": ht, "exp": exp})
         lines.append(f"legacy {hx(bytes.fromhex(script))} {wire_tx_tok(Tx.parse(raw))} {i} {ht}")
+        # Core's number straight at the SPECIFICATION (no btclib-shaped function on the line)
+        published.append((f"spec.legacy.digest {hx(bytes.fromhex(script))} {wire_tx_tok(Tx.parse(raw))} {i} {ht}",
+                          "ok " + bytes.fromhex(exp)[::-1].hex()))
     ctx.stream("legacy.core-vectors", lines)
+    ctx.correspond("core-vectors.spec=published", EXE, published)
 
 
 def s_bip_vectors(ctx):
@@ -804,7 +853,7 @@ def s_bip_vectors(ctx):
     btclib-shaped model = real code (stream), SPECIFICATION preimage / digest = the published bytes (stream whose
     expected side is the BIP's number, not btclib's)."""
     d = os.path.join(common.ROOT, "corpus", "C09")
-    lines, published = [], []
+    lines, published, direct = [], [], []
     for v in json.load(open(os.path.join(d, "bip143_vectors.json")))["vectors"]:
         tx = Tx.parse(v["tx"])
         for k, x in v["script_sigs"].items():
@@ -817,6 +866,12 @@ def s_bip_vectors(ctx):
         line = f"fromtx {outs} {wire_tx_tok(tx)} {v['i']} {v['ht']} 0 {v['codesep']}"
         lines.append(line)
         published.append((line, "ok " + v["expected"]))
+        # the published digest straight at the SPECIFICATION: script code and amount by the reference dispatch
+        # (BIP16/141/143 texts), no btclib-shaped function on the line
+        rd = ref_dispatch(un_tx(wire_tx_tok(tx)), [(a, bytes.fromhex(x)) for a, x in v["utxos"]], v["i"], v["codesep"])
+        if rd[0] != "segwit":
+            raise common.HarnessError(f"BIP143 vector {v['name']}: reference dispatch says {rd[0]}")
+        direct.append((f"spec.bip143.digest {hx(rd[1])} {wire_tx_tok(tx)} {v['i']} {v['ht']} {rd[2]}", "ok " + v["expected"]))
     k = json.load(open(os.path.join(d, "bip341_keypath_vectors.json")))
     tx = Tx.parse(k["rawUnsignedTx"])
     for x in tx.vin:
@@ -831,6 +886,7 @@ def s_bip_vectors(ctx):
         lines.append(line)
         published.append((line, "ok " + sp["sigHash"]))
         published.append((f"spec.bip341 {wire_tx_tok(tx)} {i} {outs} {ht} _ _", "ok " + sp["sigMsg"]))
+        direct.append((f"spec.bip341.digest {wire_tx_tok(tx)} {i} {outs} {ht} _ _", "ok " + sp["sigHash"]))
     # BIP143 prints the preimage of its SIGHASH_SINGLE-past-the-last-output example
     v = json.load(open(os.path.join(d, "bip143_vectors.json")))
     if "preimages" in v:
@@ -839,12 +895,49 @@ def s_bip_vectors(ctx):
                               "ok " + p["preimage"]))
     ctx.stream("bip-vectors.from_tx", lines)
     ctx.correspond("bip-vectors.model=published", EXE, published)
+    ctx.correspond("bip-vectors.spec=published", EXE, direct)
+    s_signed_script_path(ctx)
+
+
+def s_signed_script_path(ctx):
+    """A script path spend made by Bitcoin Core (corpus/C09/bip341_scriptpath_signed.json): no digest is published
+    for it, but its witness carries a BIP340 signature, so the SPECIFICATION's digest (extension by the reference
+    routine, no btclib sig_hash function involved) is the right one iff the signature verifies against it under
+    the leaf's key.  The verifier is btclib's ssa (property C03's)."""
+    from btclib.ecc import ssa
+    v = json.load(open(os.path.join(common.ROOT, "corpus", "C09", "bip341_scriptpath_signed.json")))
+    tx = Tx.parse(v["tx"])
+    i = v["index"]
+    stack = [bytes.fromhex(x) for x in v["witness"]]
+    tx.vin[i].script_witness = Witness(stack)
+    pouts = [TxOut.parse(x) for x in v["prevouts"]]
+    outs = tok_outs([(o.value, o.script_pub_key.script) for o in pouts])
+    sig, ht = stack[0][:64], stack[0][64]
+    annex, ext = ref_annex_and_ext(stack)
+    script = stack[-2]
+    ops, whole = ref_ops(script)
+    key = ops[1][1]   # OP_DROP <key> OP_CHECKSIG
+    line = f"spec.bip341.digest {wire_tx_tok(tx)} {i} {outs} {ht} {hx(annex)} {hx(ext)}"
+    out = ctx.model(EXE, [line])
+    real = _call(sig_hash.from_tx, pouts, tx, i, ht)
+    if out is None:
+        return
+    ok, detail = False, f"specification answered {out[0]}"
+    if out[0].startswith("ok "):
+        digest = bytes.fromhex(out[0][3:])
+        try:
+            ssa.assert_as_valid_(digest, key, sig)
+            ok = real == ("ok", digest)
+            detail = f"signature verifies against the specification's digest {digest.hex()}; from_tx -> {real}"
+        except Exception as e:  # noqa: BLE001
+            detail = f"signature does NOT verify against the specification's digest {digest.hex()}: {e}"
+    ctx.oracle("bip341.scriptpath.signed", ok and whole, detail, witness={"line": line[:200]})
 
 
 def s_spec_preimages(ctx):
     """The specification's PREIMAGE BYTES against the bytes the real code hashes (observed at its final hash)."""
     rng = ctx.rng
-    lines = []
+    lines, ref = [], []
     for _ in range(ctx.n(600)):
         t = g_tx(rng)
         n = len(t["vin"])
@@ -865,8 +958,17 @@ def s_spec_preimages(ctx):
             ext = rng.choice([b"", common.rand_bytes(rng, 32) + bytes([rng.choice([0, 1])]) +
                               rng.getrandbits(32).to_bytes(4, "little")])
             annex = rng.choice([b"", b"\x50", b"\x50" + common.rand_bytes(rng, 300)])
-            lines.append(f"spec.bip341 {tok_tx(t)} {i} {tok_outs(g_prevouts(rng, n))} {ht} {hx(annex)} {hx(ext)}")
+            outs = g_prevouts(rng, n)
+            lines.append(f"spec.bip341 {tok_tx(t)} {i} {tok_outs(outs)} {ht} {hx(annex)} {hx(ext)}")
+            # the specification's digest against the harness's own transcription of BIP341/342 (script path and
+            # annex included), and the real code against the same
+            want = ref_bip341(t, i, outs, ht, annex, ext)
+            ref.append((f"spec.bip341.digest {tok_tx(t)} {i} {tok_outs(outs)} {ht} {hx(annex)} {hx(ext)}", "ok " + want.hex()))
+            ctx.count("bip341.reference", f"{hex(ht)}.{'annex' if annex else 'noannex'}.{'script' if ext else 'key'}")
+            ctx.check("bip341.reference", {"tx": tok_tx(t), "i": i, "outs": tok_outs(outs), "ht": ht, "annex": hx(annex),
+                                           "ext": hx(ext)})
     ctx.stream("spec.preimage", lines)
+    ctx.correspond("spec.bip341=reference", EXE, ref)
 
 
 def s_scripts(ctx):
